@@ -268,8 +268,9 @@ def run(prop, tier, seed, only_case=None, quiet=False):
         'assumptions': getattr(mod, 'ASSUMPTIONS', []),
         'wall_s': round(wall, 2), 'violations': len(unknown),
     }
-    os.makedirs(os.path.join(ROOT, 'evidence'), exist_ok=True)
-    with open(os.path.join(ROOT, 'evidence', f'{prop}.json'), 'w') as f:
+    evdir = os.path.join(ROOT, 'evidence') if REPO == '/repo' else os.path.join(ROOT, '.work', 'evidence_other_repo')
+    os.makedirs(evdir, exist_ok=True)
+    with open(os.path.join(evdir, f'{prop}.json'), 'w') as f:
       json.dump(ev, f, indent=1, default=str)
 
   for l in lines:
